@@ -325,6 +325,16 @@ func (w *world) dump() string {
 		}
 	}
 	sb.WriteString(" R=" + strings.Join(r, ","))
+	kk := make([]string, 0)
+	for _, id := range w.ids {
+		v, err := mm.GetPubkey(id)
+		if err != nil {
+			kk = append(kk, "nil")
+		} else {
+			kk = append(kk, hx.Hex(v))
+		}
+	}
+	sb.WriteString(" K=" + strings.Join(kk, ","))
 	return sb.String()
 }
 
